@@ -94,6 +94,14 @@ pub fn run_solver(p: &Prob, ss: &SettingsSpec, observe: bool) -> Result<Run, Str
 
 pub const SLACK_REL: f64 = 1e-6;
 
+pub fn cap_b(p: &Prob, bound: f64) -> Prob {
+    let mut q = p.clone();
+    for v in q.b.iter_mut() {
+        *v = f64::min(*v, bound);
+    }
+    q
+}
+
 fn lt_tol(value: f64, tol: f64, abs: f64) -> bool {
     value < tol * (1.0 + SLACK_REL) + abs
 }
@@ -104,6 +112,9 @@ pub fn all_finite(v: &[f64]) -> bool {
 
 /// C01: a Solved verdict is a certified approximate optimum of the user's problem
 pub fn judge_c01(p: &Prob, ss: &SettingsSpec, r: &Run, bound: f64) -> CaseResult {
+    // right-hand sides above the infinity bound are documented to be capped at it
+    let capped = cap_b(p, bound);
+    let p = &capped;
     if r.status != SolverStatus::Solved {
         return Ok(());
     }
@@ -161,6 +172,9 @@ pub fn judge_c01(p: &Prob, ss: &SettingsSpec, r: &Run, bound: f64) -> CaseResult
 
 /// C02: infeasibility verdicts carry a valid certificate, on the user's data, by the documented test
 pub fn judge_c02(p: &Prob, ss: &SettingsSpec, r: &Run, bound: f64) -> CaseResult {
+    // right-hand sides above the infinity bound are documented to be capped at it
+    let capped = cap_b(p, bound);
+    let p = &capped;
     let pinf = r.status == SolverStatus::PrimalInfeasible;
     let dinf = r.status == SolverStatus::DualInfeasible;
     if !pinf && !dinf {
@@ -248,6 +262,9 @@ pub fn judge_c02(p: &Prob, ss: &SettingsSpec, r: &Run, bound: f64) -> CaseResult
 
 /// C03: the report is truthful and self-consistent on every terminal status
 pub fn judge_c03(p: &Prob, ss: &SettingsSpec, r: &Run, bound: f64) -> CaseResult {
+    // right-hand sides above the infinity bound are documented to be capped at it
+    let capped = cap_b(p, bound);
+    let p = &capped;
     let st = ss.build();
     ensure!(r.x.len() == p.n && r.s.len() == p.m && r.z.len() == p.m, "report-vector-lengths", "{} {} {} vs n={} m={}", r.x.len(), r.s.len(), r.z.len(), p.n, p.m);
     ensure!(r.status == r.info.status, "report-status-mismatch", "{:?} vs info {:?}", r.status, r.info.status);
